@@ -4,7 +4,7 @@ from __future__ import annotations
 import ast
 import itertools
 
-from ..formula import Canon, atoms_of, evaluate, show
+from ..formula import Canon, atoms_of, equivalent, evaluate, show
 from ..guards import returns_true_formula
 from ..loader import AnalysisError, norm, own_nodes, src
 
@@ -420,25 +420,25 @@ def check(eng, res):
     g = prog.func("core.get_compatible_bond_descriptor_ids")
     res.unit(g)
     gflow = eng.flow(g)
-    appends = [c for c in own_nodes(g.node) if isinstance(c, ast.Call) and isinstance(c.func, ast.Attribute) and c.func.attr == "append"]
+    # A-NORM writes the append loop as the comprehension [i for i, other in enumerate(descriptors) if <filter>]
+    comps = [c for c in own_nodes(g.node) if isinstance(c, ast.ListComp)]
     ok_f = False
-    why_f = f"{len(appends)} append site(s)"
-    if len(appends) == 1:
-        a = appends[0]
-        nid = gflow.cfg.node_of(a)
-        conds = gflow.cfg.guard_exprs(nid)
-        arg = gflow.expand(a.args[0], nid)
-        want_idx = "§idx(" + g.params[0] + ")"
-        can = Canon()
-        fs = [can.formula(gflow.expand(t, gflow.cfg.node_of(t)), pol) for t, pol in conds]
-        got = ("and", fs)
-        b, o = g.params[1], "§elem(" + g.params[0] + ")"
-        exp = can.formula(ast.parse(f"{b} is None or {b}.is_compatible(__E__)", mode="eval").body)
-        # substitute marker
-        gtxt = show(got, can).replace(o, "__E__")
-        etxt = show(exp, can)
-        ok_f = src(arg) == want_idx and gtxt.strip("()") == etxt.strip("()")
-        why_f = f"appends {src(arg)} under {gtxt}; expected {want_idx} under {etxt}"
+    why_f = f"{len(comps)} comprehension(s) / append loop(s) building the index list"
+    if len(comps) == 1 and len(comps[0].generators) == 1:
+        c = comps[0]
+        gen = c.generators[0]
+        it_ok = isinstance(gen.iter, ast.Call) and isinstance(gen.iter.func, ast.Name) and gen.iter.func.id == "enumerate" and len(gen.iter.args) == 1 and src(gen.iter.args[0]) == g.params[0] \
+            and isinstance(gen.target, ast.Tuple) and len(gen.target.elts) == 2 and all(isinstance(x, ast.Name) for x in gen.target.elts)
+        if it_ok:
+            iv, ev = gen.target.elts[0].id, gen.target.elts[1].id
+            can = Canon()
+            got = ("and", [can.formula(t) for t in gen.ifs]) if gen.ifs else ("const", True)
+            b = g.params[1]
+            exp = can.formula(ast.parse(f"{b} is None or {b}.is_compatible({ev})", mode="eval").body)
+            ok_f = isinstance(c.elt, ast.Name) and c.elt.id == iv and equivalent(got, exp)[0]
+            why_f = f"collects {src(c.elt)} under {[src(t) for t in gen.ifs]}; expected {iv} under {b} is None or {b}.is_compatible({ev})"
+        else:
+            why_f = f"iterates {src(gen.iter)[:60]}"
     res.ob("R-COMPAT-UNIQUE", g, "filter-predicate", "index i appended exactly under `bond is None or bond.is_compatible(other_i)`", g.node, ok_f, why_f)
     ret_ok = False
     for n in own_nodes(g.node):
